@@ -15,7 +15,7 @@ pub fn run(ctx: &mut Ctx) {
     ctx.run_cases(n, |ctx, idx, rng| {
         let (desc, tree) = if rng.chance(0.35) {
             // adversarial shapes: deep chains, wide infosets, rare chance, dominated actions
-            let w = *rng.pick(&[5usize, 6, 7, 8, 10, 12, 13, 3, 4, 14, 15, 16, 16]);
+            let w = *rng.pick(&[5usize, 6, 7, 8, 10, 12, 13, 3, 4, 14, 15, 16, 16, 18]);
             gen::structured(rng, w)
         } else {
             let size = *rng.pick(&[0usize, 1, 1, 2]);
